@@ -212,6 +212,15 @@ Print Assumptions above_is_zero_after_any_history.
 Print Assumptions set_fmax_last_wins.
 Print Assumptions coarse_options_exclusive.
 
+(* The sine/cosine filter an instance without an explicit 'kind' uses is decided by
+   ITS OWN signal (switch-off: cosine; impulse and switch-on: sine) -- the
+   correspondence compares the 'kind' of every instance, created in any order from
+   shared user dictionaries, with [dlf_kind] of its own setting. *)
+Theorem dlf_kind_of_own_setting (signal : Z) :
+  dlf_kind signal None = if Z.ltb signal 0 then Cos else Sin.
+Proof. exact (dlf_kind_default_lemma signal). Qed.
+Print Assumptions dlf_kind_of_own_setting.
+
 Section C20_pchip.
   Context {F : Type} {O : FOps F}.
   Hypothesis Fth : field_theory F0 F1 Fadd Fmul Fsub Fopp Fdiv Finv (@eq F).
